@@ -56,7 +56,10 @@ Why(ob, D) ==
          (IF "Dev_CaptureAboveDeclaration" \in D /\ HasModuleLevelOwnCapture(ob)
              /\ ob.rt.errors[1].name = "ReferenceError" /\ ob.rt.errors[1].during = "import"
           THEN "" ELSE "runtime:" \o ob.rt.errors[1].name \o ":" \o ob.rt.errors[1].during)
-  ELSE WhySites(ob, OptsOf(ob, D), 1)
+  ELSE LET all == Export(ob, "$all")
+           userOK(n) == all.t # "obj" \/ ~ObjHas(all.es, "u" \o n) \/ ObjGet(all.es, "u" \o n).s = "user" \o n
+       IN IF \E n \in {"_slot", "_a", "_createVNode", "_isSlot", "_Fragment"} : ~userOK(n) THEN "user-binding-captured-or-shadowed"     \* a user's `_slot` / `_a` keeps its value
+          ELSE WhySites(ob, OptsOf(ob, D), 1)
 
 ListedDevs == {"Dev_CaptureAboveDeclaration"}
 
